@@ -128,12 +128,14 @@ def r1_one_of_n(ctx: Context) -> None:
             up = any(isinstance(c, ast.Call) and call_name(c) == "update_probability" and lin.lin_of(c.args[0]).const == 1 for s in same for c in ast.walk(s))
             ca = any(isinstance(c, ast.Call) and call_name(c) == "cancel" and is_self_attr(c.func) and norm(c.args[0]) == norm(lp.target)
                      and isinstance(parent(c), ast.Call) and call_name(parent(c)) == "extend" and norm(parent(c).func.value) == cancelled
-                     for s in other for c in ast.walk(s))
+                     for s in other if not isinstance(s, (ast.If, ast.For, ast.While, ast.Try, ast.With, ast.Match)) for c in ast.walk(s)
+                     if not any(isinstance(q, ast.IfExp) and c is not q.test and any(c is z for z in ast.walk(q)) for q in ast.walk(s)))
             no_cancel_same = not any(isinstance(c, ast.Call) and call_name(c) == "cancel" for s in same for c in ast.walk(s))
             ok = up and ca and no_cancel_same and "get_children(task)" in _resolve_name(fn, lp.iter)
     ctx.check(ok, "C07.R1", "TaskGraph.notify_task_completion|siblings of the chosen child are cancelled (cascade) and reported", loc(cond),
               "for child: chosen -> p=1.0, else cancelled.extend(self.cancel(child, t))",
-              "not every untaken child goes through TaskGraph.cancel into the returned cancelled list")
+              "not every untaken child goes through TaskGraph.cancel into the returned cancelled list (the cancel must be unconditional in the "
+              "arm of the children that were not drawn: a SCHEDULED child left out starts without ever being released)")
     apps = [c for c in calls_in(ast.Module(body=cond.body, type_ignores=[]), "append") if norm(c.func.value) == released]
     ctx.check(len(apps) == 1 and chosen_var is not None and norm(apps[0].args[0]) == chosen_var, "C07.R1",
               "TaskGraph.notify_task_completion|the released child is the drawn one", loc(apps[0]) if apps else loc(cond), "released.append(chosen)",
